@@ -1,4 +1,5 @@
 """Helpers shared by the rule modules."""
+import re
 from core import ExprBuilder, callee_name, expr_str, short, strip_generics, walk, rel
 from df import Inter, Flow, world_str
 
@@ -338,3 +339,23 @@ def sstr(e):
 def var_def_strs(prog, fn, name, user_stop=True):
     eb = ExprBuilder(prog, fn, user_stop=user_stop)
     return [sstr(x) for x in eb.var_defs(name)]
+
+
+def bound_pdu_field(eb, e, payload, field):
+    """`e` is the field `field` of a PDU bound from `payload` (e.g. "@Finished.0"): either `<var>.field` with
+    var bound to the payload, or a variable bound by a destructuring pattern to that field of the payload.
+    Returns the name the value hangs on (var), else None."""
+    from core import expr_str
+
+    txt = expr_str(simp(e))
+    m = re.match(r"^(\w+)\.%s$" % re.escape(field), txt)
+    if m:
+        ds = eb.var_defs(m.group(1))
+        if ds and all(payload in expr_str(x) for x in ds):
+            return m.group(1)
+    m2 = re.match(r"^(\w+)$", txt)
+    if m2:
+        ds = eb.var_defs(m2.group(1))
+        if ds and all(payload in expr_str(x) and expr_str(simp(x)).endswith("." + field) for x in ds):
+            return m2.group(1)
+    return None
